@@ -60,9 +60,46 @@ def payload(case, side="left"):
         "mR": mR,
         "valid": 0,
         "nodata": 1,
+        # each image carries its own mask convention (attrs valid_pixels / no_data_mask of ITS dataset)
+        "validL": conv_of(case, side)[0],
+        "nodataL": conv_of(case, side)[1],
+        "validR": conv_of(case, "right" if side == "left" else "left")[0],
+        "nodataR": conv_of(case, "right" if side == "left" else "left")[1],
         "dmin": dmin,
         "dmax": dmax,
     }
+
+
+MASK_CODES = [0, 1, 2, 5, 7, 255]
+
+
+def conv_of(case, side):
+    """(valid_pixels, no_data_mask) of the dataset of that side; (0, 1) when the case does not say"""
+    c = case.get(f"{side}_conv")
+    return (int(c[0]), int(c[1])) if c else (0, 1)
+
+
+def recode_masks(rng, case):
+    """give each image its OWN mask convention, drawn independently (valid / no_data codes from MASK_CODES, distinct within
+    an image; every other value is invalid) and rewrite the masks — generated as 0 valid / 1 nodata / other invalid — in
+    that convention.  Datasets built through the API may well disagree on the convention; the code must read the
+    attributes of the image the mask belongs to."""
+    for side in ("left", "right"):
+        v, n = rng.sample(MASK_CODES, 2)
+        case[f"{side}_conv"] = [v, n]
+        m = case.get(f"{side}_msk")
+        if m is not None:
+            others = [c for c in MASK_CODES + [3, -1] if c not in (v, n)]
+
+            def recode(c, v=v, n=n, others=others):
+                if c == 0:
+                    return v
+                if c == 1:
+                    return n
+                return c if c not in (v, n) else others[abs(c) % len(others)]
+
+            case[f"{side}_msk"] = [[recode(c) for c in row] for row in m]
+    return case
 
 
 def enc_volume(cv):
